@@ -248,29 +248,33 @@ func c13Writer(a []string) []string {
 	}
 	pos := 0
 	res := make([]string, 0, len(opToks))
-	// 'W' ops hand out consecutive slices of ONE backing array holding the whole output (a payload sent piecewise):
-	// every such slice has spare capacity, and the bytes behind it are written by a later op.
-	total := 0
-	for _, t := range opToks {
-		if t[0] != 'f' {
-			n, _ := strconv.Atoi(t[1:])
-			total += n
-		}
-	}
+	// 'W' ops hand out consecutive slices of ONE backing array that holds the data of all W ops back to back (a
+	// payload sent piecewise, with other writes in between): every such slice has spare capacity, and the bytes
+	// behind it are the data of the next W op - a writer that touches the spare capacity corrupts them.
 	var stream []byte
-	for _, t := range opToks {
-		if t[0] == 'W' && stream == nil {
-			stream = make([]byte, total)
-			for i := range stream {
-				stream[i] = c13Byte(seed, i)
+	{
+		p := 0
+		for _, t := range opToks {
+			if t[0] == 'f' {
+				continue
 			}
+			n, _ := strconv.Atoi(t[1:])
+			if t[0] == 'W' {
+				for i := 0; i < n; i++ {
+					stream = append(stream, c13Byte(seed, p+i))
+				}
+			}
+			p += n
 		}
+		stream = stream[:len(stream):len(stream)]
 	}
+	spos := 0
 	for _, t := range opToks {
 		switch t[0] {
 		case 'W':
 			n, _ := strconv.Atoi(t[1:])
-			b := stream[pos : pos+n]
+			b := stream[spos : spos+n]
+			spos += n
 			pos += n
 			m, err := w.WriteBinary(b)
 			if err != nil {
